@@ -27,6 +27,8 @@ META = {
             "Every recorded hysteresis (15 columns) and the visited strain values are compared with an independent implementation of the guideline procedure evaluating the same law object; multi-point batches are compared with single-point runs.", "3 C05"),
     "C06": ("exploration", "runtime monitoring: reference-equation oracle (bracketing solve of the guideline equations) on every returned value, inverse/oddness/monotonicity/container relations, exception-type monitor",
             "Each returned stress is compared with an independent bracketing solve of the defining equation at the requested tolerance; RuntimeError is counted as the property allows, other exception types are violations.", "3 C06"),
+    "C07": ("exploration", "runtime monitoring: icontract postconditions on the four Binned look-ups (recomputed edge-grid oracle, bitwise), exceptional-exit wrapper for the range guard, consequence monitors",
+            "Every look-up executed (also those made inside the HCM detector workloads) is checked bitwise against the wrapped law evaluated on the class-edge grid; loads exactly on, one ulp below and above every edge are required classes.", "3 C07"),
     "C03": ("exploration", "runtime monitoring: metamorphic relation monitors between executions (refinement, negation, "
             "affine map, NaN insertion, Series index types), sanitizer replays",
             "Relations between pairs of real executions, each with its own counter; ties that rounding may flip are "
